@@ -8,11 +8,14 @@ Reads the dict branch of `process_object` and records, as a `TT.C13.Cfg`, WHERE 
     if id_ in dic [and dic[id_] is not obj]: raise  (between construction and registration) -> checkAfter
     dic[id_] = obj
 
-Recognised shape: `if isinstance(data, str): … elif isinstance(data, dict): <body> else: raise`,
-where <body> contains exactly one construction statement `obj = <x>.from_json_safe(data, dic)`,
-exactly one registration `dic[id_] = obj` after it, and any number of guards of the form
-`if id_ in dic: raise …` at the top level of <body>.  Anything else (a registration before the
-construction, a second registration, an unconditional overwrite under another key, …) is
+Recognised (round 7: by the ORDER OF EVENTS, not by the shape of the source): the path a dict takes
+through `process_object` is followed through `if/elif` or early-return dispatch, try blocks and calls
+of private helpers of the same module (inlined up to 4 levels; renamed variables are resolved to the
+roles data / dic / id / obj; a helper that only raises counts as a raise).  On that path there must be
+exactly one construction `… = <x>.from_json_safe(data, dic)`, exactly one registration `dic[id] = obj`
+after it, unconditional, and any number of unconditional guards `if id in dic [and dic[id] is not obj]:
+raise`.  Anything else (a registration before the construction or under a condition, a second
+registration, a registration under another key, a mutating call on the registry, …) is
 *unrecognised*: `recognised := false` is emitted and the C13 theorems, which require
 `recognised = true` and `cfg = Cfg.fixed`, stop building; the check then searches the real
 loader for a failing specification.
@@ -60,97 +63,255 @@ def _only_raises(body):
     )
 
 
+class _Trace:
+    """ordered events on the path `data` is a dict takes through process_object, private helpers of the module inlined"""
+
+    def __init__(self, funcs):
+        self.funcs = funcs
+        self.events = []          # (kind, detail) in execution order; kinds: guard, guard-identity, construct, register
+        self.depth = 0
+
+    # ---- roles of expressions: 'data' | 'dic' | 'id' | 'obj' | None
+    def role(self, e, env):
+        if isinstance(e, ast.Name):
+            return env.get(e.id)
+        if (isinstance(e, ast.Subscript) and self.role(e.value, env) == "data" and isinstance(e.slice, ast.Constant)
+                and e.slice.value == "id"):
+            return "id"
+        if isinstance(e, ast.Call):
+            if isinstance(e.func, ast.Attribute) and e.func.attr == "from_json_safe":
+                if [self.role(a, env) for a in e.args] != ["data", "dic"] or e.keywords:
+                    raise Unrecognised("from_json_safe is not called with (data, dic): " + ast.unparse(e))
+                self.events.append(("construct", ast.unparse(e)))
+                return "obj"
+            if isinstance(e.func, ast.Name) and e.func.id in self.funcs and e.func.id != "process_object":
+                return self.inline(self.funcs[e.func.id], e, env)
+            if isinstance(e.func, ast.Attribute) and self.role(e.func.value, env) == "dic" and e.func.attr in (
+                    "pop", "update", "setdefault", "clear", "popitem", "__setitem__", "__delitem__"):
+                raise Unrecognised("mutating call on dic: " + ast.unparse(e))
+        return None
+
+    def never_returns(self, body):
+        """every path through `body` ends in a raise (a raise statement, or a call of a module function that never returns)"""
+        if not body:
+            return False
+        last = body[-1]
+        if isinstance(last, ast.Raise):
+            return True
+        if isinstance(last, ast.Expr) and isinstance(last.value, ast.Call) and isinstance(last.value.func, ast.Name) \
+                and last.value.func.id in self.funcs:
+            return self.never_returns(self.funcs[last.value.func.id].body)
+        if isinstance(last, ast.If) and last.orelse:
+            return self.never_returns(last.body) and self.never_returns(last.orelse)
+        return False
+
+    def inline(self, fn, call, env):
+        """walk the body of a module-level helper with its parameters bound to the roles of the arguments; returns the role
+        of what it returns (a single role over all return statements, else None)"""
+        if self.depth >= 4:
+            raise Unrecognised("helpers nested deeper than 4")
+        params = [a.arg for a in fn.args.args]
+        new = {}
+        for prm, a in zip(params, call.args):
+            new[prm] = self.role(a, env)
+        for kw in call.keywords:
+            if kw.arg in params:
+                new[kw.arg] = self.role(kw.value, env)
+        self.depth += 1
+        rets = []
+        self.walk(fn.body, new, rets)
+        self.depth -= 1
+        roles = {r for r in rets}
+        return roles.pop() if len(roles) == 1 else None
+
+    def is_guard(self, test, env):
+        """-> 'guard' for `id in dic`, 'guard-identity' for `id in dic and dic[id] is not obj`, else None"""
+        def id_in_dic(t):
+            return (isinstance(t, ast.Compare) and len(t.ops) == 1 and isinstance(t.ops[0], ast.In)
+                    and self.role(t.left, env) == "id" and self.role(t.comparators[0], env) == "dic")
+        if id_in_dic(test):
+            return "guard"
+        if isinstance(test, ast.BoolOp) and isinstance(test.op, ast.And) and len(test.values) == 2:
+            a, b = test.values
+            if (id_in_dic(a) and isinstance(b, ast.Compare) and len(b.ops) == 1 and isinstance(b.ops[0], ast.IsNot)
+                    and isinstance(b.left, ast.Subscript) and self.role(b.left.value, env) == "dic"
+                    and self.role(b.left.slice, env) == "id" and self.role(b.comparators[0], env) == "obj"):
+                return "guard-identity"
+        return None
+
+    def isinstance_of(self, test, env):
+        if (isinstance(test, ast.Call) and isinstance(test.func, ast.Name) and test.func.id == "isinstance"
+                and len(test.args) == 2 and self.role(test.args[0], env) == "data" and isinstance(test.args[1], ast.Name)):
+            return test.args[1].id
+        return None
+
+    def conditional(self, stmts, env, rets, what):
+        n = len(self.events)
+        self.walk(stmts, env, rets)
+        if any(k in ("construct", "register") for k, _ in self.events[n:]):
+            raise Unrecognised(f"construction / registration under {what}")
+        del self.events[n:]       # a guard that only holds under a condition is not counted
+
+    def walk(self, stmts, env, rets):
+        for s in stmts:
+            if isinstance(s, ast.Expr) and isinstance(s.value, ast.Constant):
+                continue
+            if isinstance(s, ast.Delete):
+                raise Unrecognised("del statement in process_object")
+            if isinstance(s, ast.If):
+                ty = self.isinstance_of(s.test, env)
+                if ty == "str":
+                    # the reference branch: must not write to the registry (checked), nothing else is read from it
+                    n = len(self.events)
+                    self.walk(s.body, dict(env), [])
+                    if len(self.events) != n:
+                        raise Unrecognised("the reference branch constructs / registers / tests ids")
+                    self.walk(s.orelse, env, rets)
+                    continue
+                if ty == "dict":
+                    self.walk(s.body, env, rets)
+                    # the else branch is the `not valid` error; it must not construct or register
+                    self.conditional(s.orelse, dict(env), [], "the not-a-dict branch")
+                    continue
+                g = self.is_guard(s.test, env)
+                if g and not s.orelse and self.never_returns(s.body):
+                    self.events.append((g, ast.unparse(s.test)))
+                    continue
+                self.role(s.test, env)
+                self.conditional(s.body, dict(env), rets, "a condition: " + ast.unparse(s.test)[:60])
+                self.conditional(s.orelse, dict(env), rets, "a condition: not " + ast.unparse(s.test)[:60])
+                continue
+            if isinstance(s, (ast.For, ast.While, ast.With)):
+                self.conditional(s.body + getattr(s, "orelse", []), dict(env), rets, "a loop / with block")
+                continue
+            if isinstance(s, ast.Try):
+                self.walk(s.body, env, rets)
+                for h in s.handlers:
+                    self.conditional(h.body, dict(env), rets, "an except clause")
+                self.walk(s.orelse, env, rets)
+                self.walk(s.finalbody, env, rets)
+                continue
+            if isinstance(s, ast.Return):
+                rets.append(self.role(s.value, env) if s.value is not None else None)
+                continue
+            if isinstance(s, (ast.Assign, ast.AnnAssign, ast.AugAssign)):
+                targets = s.targets if isinstance(s, ast.Assign) else [s.target]
+                value = s.value
+                r = self.role(value, env) if value is not None else None
+                for t in targets:
+                    if isinstance(t, ast.Name):
+                        env[t.id] = r
+                    elif isinstance(t, ast.Subscript) and self.role(t.value, env) == "dic":
+                        self.events.append(("register", (self.role(t.slice, env), r, ast.unparse(s))))
+                    elif isinstance(t, (ast.Tuple, ast.List)):
+                        for el in t.elts:
+                            if isinstance(el, ast.Name):
+                                env[el.id] = None
+                continue
+            if isinstance(s, ast.Expr):
+                self.role(s.value, env)
+                continue
+            if isinstance(s, ast.Raise):
+                return
+            # anything else (nested def, global, …) is not expected on this path
+            if isinstance(s, (ast.FunctionDef, ast.ClassDef, ast.Global, ast.Nonlocal)):
+                raise Unrecognised("unexpected statement: " + type(s).__name__)
+
+
 def analyse(src: str):
+    """-> (checkBefore, checkAfter, afterIsIdentity).  The path a dict takes through `process_object` is followed through
+    private helpers of the same module (inlined up to 4 levels, early returns, roles of renamed variables resolved): what
+    counts is the ORDER of the events `id in dic -> raise`, `obj = klass.from_json_safe(data, dic)`, `dic[id] = obj`, not
+    the shape of the source."""
     tree = ast.parse(src)
-    fn = next((n for n in tree.body if isinstance(n, ast.FunctionDef) and n.name == "process_object"), None)
+    funcs = {n.name: n for n in tree.body if isinstance(n, ast.FunctionDef)}
+    fn = funcs.get("process_object")
     if fn is None:
         raise Unrecognised("no function process_object")
     args = [a.arg for a in fn.args.args]
     if len(args) != 2:
         raise Unrecognised("process_object does not take (data, dic)")
-    data_name, dic_name = args
-    top = [s for s in fn.body if not (isinstance(s, ast.Expr) and isinstance(s.value, ast.Constant))]
-    if not (len(top) == 2 and isinstance(top[0], ast.If) and isinstance(top[1], ast.Return)):
-        raise Unrecognised("top-level shape is not `if … elif … else` + return")
-    first = top[0]
-
-    def isinst(test, ty):
-        return (
-            isinstance(test, ast.Call) and isinstance(test.func, ast.Name) and test.func.id == "isinstance"
-            and len(test.args) == 2 and isinstance(test.args[0], ast.Name) and test.args[0].id == data_name
-            and isinstance(test.args[1], ast.Name) and test.args[1].id == ty
-        )
-
-    if not isinst(first.test, "str"):
-        raise Unrecognised("first branch is not isinstance(data, str)")
-    if not (len(first.orelse) == 1 and isinstance(first.orelse[0], ast.If) and isinst(first.orelse[0].test, "dict")):
-        raise Unrecognised("second branch is not isinstance(data, dict)")
-    body = first.orelse[0].body
-    # the id variable: `id_ = data["id"]` inside the leading try
-    id_name = None
-    for s in ast.walk(ast.Module(body=body, type_ignores=[])):
-        if (isinstance(s, ast.Assign) and len(s.targets) == 1 and isinstance(s.targets[0], ast.Name)
-                and isinstance(s.value, ast.Subscript) and isinstance(s.value.value, ast.Name)
-                and s.value.value.id == data_name and isinstance(s.value.slice, ast.Constant)
-                and s.value.slice.value == "id"):
-            id_name = s.targets[0].id
-            break
-    if id_name is None:
-        raise Unrecognised("no `id_ = data['id']`")
-    construct, register, guards = [], [], []
-    obj_name = None
-    for i, s in enumerate(body):
-        if (isinstance(s, ast.Assign) and isinstance(s.value, ast.Call) and isinstance(s.value.func, ast.Attribute)
-                and s.value.func.attr == "from_json_safe" and isinstance(s.targets[0], ast.Name)):
-            construct.append(i)
-            obj_name = s.targets[0].id
-        elif (isinstance(s, ast.Assign) and isinstance(s.targets[0], ast.Subscript)
-              and isinstance(s.targets[0].value, ast.Name) and s.targets[0].value.id == dic_name):
-            tgt = s.targets[0].slice
-            if not (isinstance(tgt, ast.Name) and tgt.id == id_name and isinstance(s.value, ast.Name)):
-                raise Unrecognised("registration under something else than id_: " + ast.unparse(s))
-            register.append((i, s.value.id))
-        elif isinstance(s, ast.If) and _is_id_in_dic(s.test, id_name, dic_name) and _only_raises(s.body) and not s.orelse:
-            guards.append(i)
-        elif (isinstance(s, ast.If) and construct and _is_held_by_other(s.test, id_name, dic_name, obj_name)
-              and _only_raises(s.body) and not s.orelse):
-            guards.append(i)
-    # any other write to dic anywhere in the function
-    for n in ast.walk(fn):
-        if isinstance(n, (ast.Delete,)):
-            raise Unrecognised("del statement in process_object")
-        if isinstance(n, ast.Call) and isinstance(n.func, ast.Attribute) and isinstance(n.func.value, ast.Name) \
-                and n.func.value.id == dic_name and n.func.attr in ("pop", "update", "setdefault", "clear", "popitem", "__setitem__"):
-            raise Unrecognised("mutating call on dic: " + ast.unparse(n))
-    n_sub_assign = sum(
-        1 for n in ast.walk(fn)
-        if isinstance(n, (ast.Assign, ast.AugAssign))
-        for t in (n.targets if isinstance(n, ast.Assign) else [n.target])
-        if isinstance(t, ast.Subscript) and isinstance(t.value, ast.Name) and t.value.id == dic_name
-    )
-    if len(construct) != 1 or len(register) != 1 or n_sub_assign != 1:
-        raise Unrecognised(f"{len(construct)} construction(s), {n_sub_assign} registration(s)")
-    c, (r, regval) = construct[0], register[0]
-    if regval != obj_name:
+    tr = _Trace(funcs)
+    rets = []
+    tr.walk(fn.body, {args[0]: "data", args[1]: "dic"}, rets)
+    ev = tr.events
+    construct = [i for i, (k, _) in enumerate(ev) if k == "construct"]
+    register = [i for i, (k, _) in enumerate(ev) if k == "register"]
+    if len(construct) != 1 or len(register) != 1:
+        raise Unrecognised(f"{len(construct)} construction(s), {len(register)} registration(s)")
+    c, r = construct[0], register[0]
+    key, val, text = ev[r][1]
+    if key != "id":
+        raise Unrecognised("registration under something else than id_: " + text)
+    if val != "obj":
         raise Unrecognised("registers something else than the constructed object")
     if r < c:
         raise Unrecognised("registration precedes construction")
-    before = any(g < c for g in guards)
-    after = any(c < g < r for g in guards)
-    # is the test between construction and registration of the form `… and dic[id_] is not obj` (F01b)?
-    identity = any(c < g < r and _is_held_by_other(body[g].test, id_name, dic_name, obj_name) for g in guards)
+    if "obj" not in rets:
+        raise Unrecognised("process_object does not return the constructed object")
+    guards = [(i, k) for i, (k, _) in enumerate(ev) if k.startswith("guard")]
+    before = any(i < c and k == "guard" for i, k in guards)
+    after = any(c < i < r for i, k in guards)
+    identity = any(c < i < r and k == "guard-identity" for i, k in guards)
     return before, after, identity
 
 
 PROCESS = {"process_object", "process_objects", "process_object_with_key"}
 
 
+def _registry_events(fn_, dic, cls, module_funcs, depth=0):
+    """what `fn_` does with the registry `dic`, in source order, helpers that are handed the registry inlined (methods of
+    the same class called through cls / the class name / self, functions of the same module): [(kind, node)] with kind in
+    process | store | test | load | call | del"""
+    out = []
+    nodes = sorted((n for n in ast.walk(fn_) if hasattr(n, "lineno")), key=lambda n: (n.lineno, n.col_offset))
+    methods = {m.name: m for m in cls.body if isinstance(m, ast.FunctionDef)} if cls is not None else {}
+    for n in nodes:
+        if isinstance(n, ast.Call):
+            if isinstance(n.func, ast.Name) and n.func.id in PROCESS:
+                out.append(("process", n))
+                continue
+            callee = None
+            if isinstance(n.func, ast.Name) and n.func.id in module_funcs:
+                callee = module_funcs[n.func.id]
+            elif (isinstance(n.func, ast.Attribute) and isinstance(n.func.value, ast.Name) and n.func.attr in methods
+                  and n.func.value.id in ("cls", "self", cls.name if cls is not None else "")
+                  and n.func.attr not in ("from_json", "from_json_safe")):
+                callee = methods[n.func.attr]
+            if callee is not None and depth < 3 and callee is not fn_:
+                params = [a.arg for a in callee.args.args]
+                if params and params[0] in ("cls", "self") and not isinstance(n.func, ast.Name):
+                    params = params[1:]
+                passed = [prm for prm, a in zip(params, n.args) if isinstance(a, ast.Name) and a.id == dic]
+                passed += [kw.arg for kw in n.keywords if isinstance(kw.value, ast.Name) and kw.value.id == dic and kw.arg in params]
+                if passed:
+                    out += _registry_events(callee, passed[0], cls, module_funcs, depth + 1)
+                    continue
+            if isinstance(n.func, ast.Attribute) and isinstance(n.func.value, ast.Name) and n.func.value.id == dic:
+                out.append(("call", n))
+        elif isinstance(n, (ast.Assign, ast.AugAssign)):
+            for t in (n.targets if isinstance(n, ast.Assign) else [n.target]):
+                if isinstance(t, ast.Subscript) and isinstance(t.value, ast.Name) and t.value.id == dic:
+                    out.append(("store", n))
+        elif isinstance(n, ast.If) and isinstance(n.test, ast.Compare) and len(n.test.ops) == 1 \
+                and isinstance(n.test.ops[0], ast.In) and isinstance(n.test.comparators[0], ast.Name) \
+                and n.test.comparators[0].id == dic:
+            out.append(("test", n))
+        elif isinstance(n, ast.Subscript) and isinstance(n.ctx, ast.Load) and isinstance(n.value, ast.Name) and n.value.id == dic:
+            out.append(("load", n))
+        elif isinstance(n, ast.Delete):
+            for t in n.targets:
+                if isinstance(t, ast.Subscript) and isinstance(t.value, ast.Name) and t.value.id == dic:
+                    out.append(("del", n))
+    return out
+
+
 def scan_from_json(repo: Path):
     """every class whose from_json touches the registry `dic` DIRECTLY (not through process_object):
     -> (writers, readers, problems)
-       writers : [(class, k_test, k_reg)]  number of process_object(s) calls that lexically precede the class's own
-                 `if id_ in dic: raise` test and its `dic[id_] = obj` registration (the model assumes k_test == k_reg:
-                 the test stands immediately before the registration)
+       writers : [(class, k_test, k_reg)]  number of process_object(s) calls that precede (in source order, private helpers
+                 that receive the registry inlined) the class's own `if id_ in dic: raise` test and its `dic[id_] = obj`
+                 registration (the model assumes k_test == k_reg: the test stands immediately before the registration)
        readers : [class]  classes that read `dic[...]` themselves (a reference resolved without process_object)"""
     writers, readers, problems = [], [], []
     for f in sorted((Path(repo) / "torchtree").rglob("*.py")):
@@ -159,44 +320,41 @@ def scan_from_json(repo: Path):
         except SyntaxError as e:
             problems.append(f"{f.name}: {e}")
             continue
+        module_funcs = {n.name: n for n in tree.body if isinstance(n, ast.FunctionDef) and n.name not in PROCESS}
         for cls in [n for n in ast.walk(tree) if isinstance(n, ast.ClassDef)]:
             for fn_ in [n for n in cls.body if isinstance(n, ast.FunctionDef) and n.name in ("from_json", "_parse_json")]:
                 if len(fn_.args.args) < 2:
                     continue
                 dic = fn_.args.args[-1].arg
-                calls = sorted((n.lineno, n.col_offset) for n in ast.walk(fn_)
-                               if isinstance(n, ast.Call) and isinstance(n.func, ast.Name) and n.func.id in PROCESS)
+                ev = _registry_events(fn_, dic, cls, module_funcs)
 
-                def before(node):
-                    return sum(1 for c in calls if c < (node.lineno, node.col_offset))
+                def before(i):
+                    return sum(1 for k, _ in ev[:i] if k == "process")
 
-                stores = [n for n in ast.walk(fn_) if isinstance(n, (ast.Assign, ast.AugAssign))
-                          for t in (n.targets if isinstance(n, ast.Assign) else [n.target])
-                          if isinstance(t, ast.Subscript) and isinstance(t.value, ast.Name) and t.value.id == dic]
-                tests = [n for n in ast.walk(fn_) if isinstance(n, ast.If) and isinstance(n.test, ast.Compare)
-                         and len(n.test.ops) == 1 and isinstance(n.test.ops[0], ast.In)
-                         and isinstance(n.test.comparators[0], ast.Name) and n.test.comparators[0].id == dic]
-                loads = [n for n in ast.walk(fn_) if isinstance(n, ast.Subscript) and isinstance(n.ctx, ast.Load)
-                         and isinstance(n.value, ast.Name) and n.value.id == dic]
-                other = [n for n in ast.walk(fn_) if isinstance(n, ast.Call) and isinstance(n.func, ast.Attribute)
-                         and isinstance(n.func.value, ast.Name) and n.func.value.id == dic]
-                dels = [n for n in ast.walk(fn_) if isinstance(n, ast.Delete)
-                        for t in n.targets if isinstance(t, ast.Subscript) and isinstance(t.value, ast.Name) and t.value.id == dic]
-                if other or dels:
+                stores = [i for i, (k, _) in enumerate(ev) if k == "store"]
+                tests = [i for i, (k, _) in enumerate(ev) if k == "test"]
+                if any(k in ("call", "del") for k, _ in ev):
                     problems.append(f"{cls.name}.{fn_.name}: method call / del on the registry")
                 if stores:
-                    if len(stores) != 1 or len(tests) != 1 or not all(isinstance(s_, ast.Raise) for s_ in tests[0].body):
+                    def raises(body):
+                        return all(isinstance(s_, ast.Raise) or (isinstance(s_, ast.Expr) and isinstance(s_.value, ast.Call)
+                                                                 and isinstance(s_.value.func, ast.Name)
+                                                                 and s_.value.func.id in module_funcs
+                                                                 and all(isinstance(x, (ast.Raise, ast.Expr)) for x in module_funcs[s_.value.func.id].body)
+                                                                 and isinstance(module_funcs[s_.value.func.id].body[-1], ast.Raise))
+                                   for s_ in body)
+                    if len(stores) != 1 or len(tests) != 1 or not raises(ev[tests[0]][1].body):
                         problems.append(f"{cls.name}.{fn_.name}: {len(stores)} registry writes, {len(tests)} membership tests")
                         writers.append((cls.name, 99, before(stores[0])))
                     else:
-                        key = stores[0].targets[0].slice
-                        tkey = tests[0].test.left
+                        key = ev[stores[0]][1].targets[0].slice
+                        tkey = ev[tests[0]][1].test.left
                         if not (isinstance(key, ast.Name) and isinstance(tkey, ast.Name) and key.id == tkey.id):
                             problems.append(f"{cls.name}.{fn_.name}: registers under another key than the one it tests")
                         writers.append((cls.name, before(tests[0]), before(stores[0])))
                 elif tests:
                     problems.append(f"{cls.name}.{fn_.name}: tests the registry without registering")
-                if loads:
+                if any(k == "load" for k, _ in ev):
                     readers.append(cls.name)
     return sorted(writers), sorted(set(readers)), problems
 
